@@ -114,7 +114,8 @@ Lemma E_sleep_done t : E (sleep_done t).
 Proof. intros w. unfold sleep_done. destruct (get_task t w) as [tk|]; [|apply ext_refl]. destruct (tk_done tk); [apply ext_refl|]. eapply ext_trans; [apply E_put_task|apply E_call_soon]. Qed.
 Lemma E_queue_send e d : E (queue_send e d).
 Proof.
-  intros w. unfold queue_send. destruct (t_collect (cfg w) =? 0); [apply E_neutral, n_send_sd|].
+  intros w0. unfold queue_send. apply (ext_trans _ (ghost (GQueue e d) w0)); [apply E_neutral, n_ghost|]. generalize (ghost (GQueue e d) w0). clear w0.
+  intros w. unfold queue_core. destruct (t_collect (cfg w) =? 0); [eapply ext_trans; [apply E_neutral, n_ghost|apply E_neutral, n_send_sd]|].
   match goal with |- ext w (match ?o with Some _ => _ | None => _ end) => destruct o as [[c co]|] end; [apply E_set_collectors|].
   destruct (call_later (t_collect (cfg w)) (HCollector (next_id w)) w) as [tid w1] eqn:Ec.
   assert (w1 = snd (call_later (t_collect (cfg w)) (HCollector (next_id w)) w)) as -> by (rewrite Ec; reflexivity).
@@ -123,7 +124,7 @@ Qed.
 Lemma E_collector_timeout c : E (collector_timeout c).
 Proof.
   intros w. unfold collector_timeout. destruct (aget N.eqb c (collectors w)); [|apply ext_refl].
-  eapply ext_trans; [apply E_set_collectors|apply E_neutral, n_send_sd].
+  eapply ext_trans; [|apply E_neutral, n_send_sd]. eapply ext_trans; [apply E_neutral, n_ghost|apply E_set_collectors].
 Qed.
 
 (* ---- composite functions *)
